@@ -18,7 +18,7 @@ MANIFEST_META = {
                    "autotools build); per-file command-line renames (-Dwrite=, -Dmkstemp=, -Dclock_gettime=, -Dmmap=, pthread "
                    "shim) need no source change"),
         "baseline_off_cmd": "make -C /repo check",
-        "source_commits": [],
+        "source_commits": [],  # hook commits in /repo (fix: commits are listed in KNOWN_FINDINGS.txt)
         "add_only": True,
     },
     "engines": [
@@ -123,4 +123,55 @@ PROPS["C10"] = {
     "expect_tags": ["multi_block", "has_refused_adds", "foreign_prefix", "pooled", "empty_table", "clamped_block_size"],
     "assumptions": TABLE_ASSUME,
     "tiers": WRITER_TIERS,
+}
+
+PROPS["C02"] = {
+    "manifest": {
+        "level_text": ("Generated tables (biased to many blocks) x a query set derived from the file itself: every stored key, "
+                       "neighbours/prefixes/extensions of sampled keys, every index separator read by the independent decoder with "
+                       "its predecessor and successor, empty and beyond-last keys, and all 144 ordered pairs of a 12-element sample "
+                       "as ranges; each of get / get_prefix / get_range is compared with a linear-scan model. Exploration."),
+        "level_note": TRUST, "technique": PBT + "; differential oracle against a linear-scan reference table",
+    },
+    "src": "props/C02.cpp",
+    "level": "exploration",
+    "rule": ("case = (table, writer configuration, extra literal queries, sampling seed); per case several hundred lookups are "
+             "derived from the written file (see level text). Non-trivial case: the file has >= 2 data blocks and at least one "
+             "query addresses a block other than the first or falls strictly between a block's last key and its index separator / "
+             "between the separator and the next block's first key. distinct_nontrivial counts distinct such cases (FNV-1a of the "
+             "serialised case); counters give the number of individual lookups."),
+    "expect_tags": ["multi_block", "index_multi_restart_run", "query_between_last_and_separator_or_separator_and_first",
+                    "inverted_range", "empty_table", "empty_key_stored"],
+    "assumptions": TABLE_ASSUME,
+    "tiers": {
+        "quick": [{"mode": "rc", "cases": 120, "max_size": 100}],
+        "thorough": [{"mode": "rc", "cases": 3000, "max_size": 100}],
+    },
+}
+PROPS["C03"] = {
+    "manifest": {
+        "level_text": ("Model-based history testing: generated next/seek histories (1-3 interleaved iterators of all four kinds on one "
+                       "reader, seek targets chosen relative to the model cursor so that block crossings, backward seeks and seeks to "
+                       "the key just returned are frequent) are checked step by step against a cursor model; plus an enumeration of "
+                       "ALL (iterator kind, position, target) triples for a deterministic family of small multi-block tables "
+                       "(exhaustive for those tables only)."),
+        "level_note": TRUST, "technique": PBT + "; stateful model-based testing against a cursor model, plus exhaustive (position,target) enumeration on small tables",
+    },
+    "src": "props/C03.cpp",
+    "level": "exploration",
+    "rule": ("mode rc: case = (table, config, 1-3 iterator specs, <= 40 ops); non-trivial when a seek is issued after next() crossed a "
+             "block boundary, or a seek goes backwards, or targets the key just returned. mode enum: one case = one table of the "
+             "deterministic family (5 restart intervals x 9 sizes x 4 value sizes x 3 key shapes x 5 compression types); inside it every "
+             "(9 iterator specs) x (every position incl. exhausted) x (every stored key, its predecessor, successor, empty, beyond-last) "
+             "runs p*next; seek(t); next*3 — counter seek_pairs_enumerated; non-trivial when the table has >= 2 blocks."),
+    "expect_tags": ["seek_after_next_crossed_block", "backward_seek", "seek_to_key_just_returned", "seek_after_failure",
+                    "two_iterators_interleaved", "kind_0", "kind_1", "kind_2", "kind_3", "enum_table"],
+    "assumptions": TABLE_ASSUME,
+    "tiers": {
+        "quick": [{"mode": "rc", "cases": 600, "max_size": 100},
+                  {"mode": "enum", "kv": {"tables": 3}, "note": "all (kind, position, target) triples of 48 family tables"}],
+        "thorough": [{"mode": "rc", "cases": 20000, "max_size": 100},
+                     {"mode": "enum", "kv": {"tables": 170}, "exhaustive": True,
+                      "note": "all (kind, position, target) triples of the whole 2700-table family"}],
+    },
 }
